@@ -598,7 +598,8 @@ func genERC20(r *lib.Rand, tier string) History {
 			if r.Chance(1, 30) {
 				to = -1
 			}
-			if t.deployed && g.enable && amt.Sign() > 0 && amt.Cmp(b) <= 0 && to >= 0 && to != accFeeCol {
+			ok1 := t.deployed && g.enable && amt.Sign() > 0 && amt.Cmp(b) <= 0 && to >= 0 && to != accFeeCol
+			if ok1 {
 				g.erc[t.min][from].Sub(g.erc[t.min][from], amt)
 				if t.bal[to] == nil {
 					t.bal[to] = big.NewInt(0)
@@ -606,7 +607,48 @@ func genERC20(r *lib.Rand, tier string) History {
 				t.bal[to].Add(t.bal[to], amt)
 				t.supply.Add(t.supply, amt)
 			}
-			h.Steps = append(h.Steps, Op{K: "hook", A: from, B: to, Min: t.min, Amt: amt.String()})
+			hop := Op{K: "hook", A: from, B: to, Min: t.min, Amt: amt.String()}
+			if (ok1 && r.Chance(2, 3)) || r.Chance(1, 8) { // one EVM transaction calling swapToNative several times (same or other bound tokens)
+				evs := []HookEv{{A: from, B: to, Min: t.min, Amt: amt.String()}}
+				for i, n := 0, 1+r.Intn(3); i < n; i++ {
+					t2 := t
+					if r.Chance(1, 2) {
+						t2 = g.toks[r.Intn(len(g.toks))]
+					}
+					var hs2 []int
+					for _, a := range []int{0, 1, 2, 3, 200, 201} {
+						if b := g.erc[t2.min][a]; b != nil && b.Sign() > 0 {
+							hs2 = append(hs2, a)
+						}
+					}
+					if len(hs2) == 0 {
+						continue
+					}
+					h2 := hs2[r.Intn(len(hs2))]
+					b2 := g.erc[t2.min][h2]
+					amt2 := pick(r, big.NewInt(1), new(big.Int).Set(b2), r.BigRange(big.NewInt(1), b2), r.BigRange(big.NewInt(1), b2))
+					if r.Chance(1, 15) {
+						amt2 = new(big.Int).Add(b2, big.NewInt(1)) // the whole transaction reverts
+					}
+					to2 := r.Intn(g.n)
+					if r.Chance(1, 20) {
+						to2 = accFeeCol
+					}
+					if t2.deployed && g.enable && amt2.Cmp(b2) <= 0 && to2 != accFeeCol {
+						g.erc[t2.min][h2].Sub(g.erc[t2.min][h2], amt2)
+						if t2.bal[to2] == nil {
+							t2.bal[to2] = big.NewInt(0)
+						}
+						t2.bal[to2].Add(t2.bal[to2], amt2)
+						t2.supply.Add(t2.supply, amt2)
+					}
+					evs = append(evs, HookEv{A: h2, B: to2, Min: t2.min, Amt: amt2.String()})
+				}
+				if len(evs) > 1 {
+					hop = Op{K: "hookmulti", Evs: evs}
+				}
+			}
+			h.Steps = append(h.Steps, hop)
 		case 0: // deploy
 			a := accGov
 			if r.Chance(1, 8) {
@@ -833,7 +875,7 @@ func (n *nonTrivial) note(w *world, op Op, ok bool) {
 				n.st["nt:stranger"]++
 			}
 		}
-	case "toerc20", "fromerc20", "hook":
+	case "toerc20", "fromerc20", "hook", "hookmulti":
 		if ok {
 			n.convOK++
 		} else {
